@@ -164,6 +164,11 @@ def fn2(d):
         return f
     if n == 'pair_last':
         return lambda a, x: (a[0] + 1, x)
+    if n == 'append_fst':
+        def appf(a, x):
+            a[0].append(x)   # mutates the list held by the (immutable) tuple accumulator
+            return (a[0], a[1] + 1)
+        return appf
     raise ValueError('fn2 %r' % (d,))
 
 
